@@ -26,7 +26,7 @@ type armLab struct {
 type Arms struct {
 	r     *Roles
 	of    map[*ssa.BasicBlock]map[string]bool
-	all   map[*ssa.BasicBlock]map[armLab]bool                    // labels with their guard attribute
+	all   map[*ssa.BasicBlock]map[armLab]bool                     // labels with their guard attribute
 	via   map[*ssa.BasicBlock]map[*ssa.BasicBlock]map[armLab]bool // ... per predecessor they arrived through
 	Preds []armPred
 	stmt  map[int64]string // StatementType value -> constant name
